@@ -258,7 +258,7 @@ def main(argv):
         print('KNOWN-FINDING: property=%s %s (%d instances)' % (pid, f['text'], cnt))
     if rc == 0 and engine_errors:
         for e in engine_errors[:args.max_show]:
-            print('ENGINE-ERROR ' + e[:600])
+            print('ENGINE-ERROR ' + (e if len(e) < 900 else e[:250] + ' ... ' + e[-600:]))
         rc = 3
     if rc == 0 and undecided:
         for u in undecided[:args.max_show]:
